@@ -319,6 +319,26 @@ def r12_iteration_exits(ctx):
                                                                 ctext_ref('sum((c.vote for c in E.C.hopeful() + E.C.elected()), E.V0)'))
         ctx.check(okv, R, vs_[0] if vs_ else it.node, it, 'the votes used for the quota are re-summed from the continuing tallies after every distribution',
                   'E.votes = sum([c.vote for c in C.hopeful() + C.elected()], V0)', 'E.votes is `%s`' % (unparse(vs_[0].value) if vs_ else None))
+        # every pass of the iteration distributes the votes before it recomputes the quota and looks for winners: a pass that reuses
+        # the tallies of an earlier distribution also reuses E.votes, E.quota and E.residual from before
+        dist_nodes = {x for x in icfg.stmt_nodes() if calls_local_helper(
+            ctx, it, x, lambda n_, g_: isinstance(n_, ast.AugAssign) and isinstance(n_.target, ast.Attribute) and n_.target.attr == 'vote')}
+        # ... or an inline distribution: a loop over the ballots that accumulates tallies
+        for x in icfg.nodes:
+            if x.kind == 'iter' and ctx.canon(x.ast.iter, it) in ('E.ballots', 'E.ballotsEqual') and any(
+                    isinstance(n_, ast.AugAssign) and isinstance(n_.target, ast.Attribute) and n_.target.attr == 'vote' for n_ in ast.walk(x.ast)):
+                dist_nodes.add(x)
+        loops_ = [x for x in it.node.body if isinstance(x, ast.While)]
+        starts = [t_ for t_, lab_ in icfg.of_stmt[loops_[0]].succ if lab_ is True] if loops_ else [icfg.entry]
+        users_ = {x for x in icfg.stmt_nodes() if x not in dist_nodes and (
+            (x.kind == 'stmt' and isinstance(x.ast, ast.Assign) and ctx.canon(x.ast.targets[0], it) in ('E.quota', 'E.votes', 'E.surplus'))
+            or 'elect' in node_effects(ctx, it, x))}
+        early_ = icfg.reach(starts, avoid=dist_nodes, include_start=True) & users_
+        ctx.check(bool(dist_nodes) and not early_, R, it.node, it,
+                  'every pass of the iteration distributes the votes before it recomputes votes, quota and surplus and elects',
+                  'the distribution call dominates those statements within a pass',
+                  'line %s can run in a pass that did not distribute the votes first: it works from the tallies (and E.residual, E.votes) of an '
+                  'earlier distribution' % (sorted(x.line for x in early_)[0] if early_ else '?'))
         qs = [s for s in it.own_nodes() if isinstance(s, ast.Assign) and ctx.canon(s.targets[0], it) == 'E.quota']
         okq = len(qs) == 1 and vs_ and qs[0].lineno > vs_[0].lineno
         ctx.check(okq, R, qs[0] if qs else it.node, it, 'the quota is recomputed from those votes in every iteration', 'E.quota = ... after E.votes',
